@@ -58,6 +58,8 @@ type Sim struct {
 	// Aborted is set when block production failed (panic / error): the run cannot continue.
 	Aborted  bool
 	AbortWhy string
+	// ForceJump makes the next block's time jump forward by this much (a fault placed by the scenario).
+	ForceJump time.Duration
 	// OnRestart is invoked after a node restart (clients resync).
 	OnRestart func()
 	// OnSubmit observes every transaction an actor submits (template harvesting for C03).
@@ -117,7 +119,12 @@ func (s *Sim) Block() *world.BlockResult {
 	t := s.T
 	// block interval: 1.2s..2.2s, occasionally a forward jump
 	dt := time.Duration(1200+t.Intn(1001)) * time.Millisecond
-	if s.Cfg.JumpPerMille > 0 && t.Chance(uint64(s.Cfg.JumpPerMille), 1000) {
+	if s.ForceJump > 0 {
+		dt = s.ForceJump
+		s.ForceJump = 0
+		s.R.Stats.Fault("clock_jump")
+		s.R.Trace.Event("clock-jump", "%s (placed)", dt)
+	} else if s.Cfg.JumpPerMille > 0 && t.Chance(uint64(s.Cfg.JumpPerMille), 1000) {
 		switch t.Intn(4) {
 		case 0:
 			dt = time.Duration(1+t.Intn(120)) * time.Second
